@@ -43,3 +43,17 @@ func GovcC12Bidiag() {
     govcC12Same("bidiag", a, a0)
   }
 }
+
+// a caller-supplied work matrix, different from the input and holding other values
+func GovcC12BidiagWorkBuffer() {
+  a, a0 := govcC12Input(2, 2, false, false)
+  buf := NullDenseFloat64Matrix(2, 2)
+  for i := 0; i < 2; i++ {
+    for j := 0; j < 2; j++ {
+      buf.At(i, j).SetFloat64(7.0 + float64(i+j))
+    }
+  }
+  if _, _, _, err := Run(a, ComputeU{true}, ComputeV{true}, &InSitu{A: buf}); err == nil {
+    govcC12Same("bidiag-workbuffer", a, a0)
+  }
+}
